@@ -207,4 +207,65 @@ def run(chk):
         muts += ['pkt =' + m.hex() for m in mutate_bytes(rng, d, 10)]
     bad = run_scope_b(chk, me, muts, 'mutants', {})
     resolve_scope_b(chk, me, bad, 'mutants', {}, None, STREAMS)
+    # ---- the sFlow path, judged on the implementation alone (sixth round, fix 5d701ef): every frame of a sample of the
+    # generated frames travels as the raw packet header record of a flow sample, captured at EVERY length 0..len (the
+    # record padded to a multiple of four, as on the wire), through the real sflow:// pipe. The property's sentence
+    # is evaluated on the outputs themselves: every column of the cut capture's message -- other than the ethertype,
+    # the VLAN id and the two layer lists -- equals the column of the COMPLETE capture's message, or is absent, or (list
+    # columns) is a prefix of it; the layer stack is a prefix of the complete one. No model involved: a model that copies
+    # the code cannot hide a violation here.
+    def u32(x):
+        return x.to_bytes(4, 'big')
+
+    def sflow_dgram(frame_len, cap):
+        rec = u32(1) + u32(frame_len) + u32(0) + u32(len(cap)) + cap + bytes((4 - len(cap) % 4) % 4)
+        record = u32(1) + u32(len(rec)) + rec
+        body = u32(7) + u32(1) + u32(100) + u32(1000) + u32(0) + u32(1) + u32(2) + u32(1) + record
+        sample = u32(1) + u32(len(body)) + body
+        return u32(5) + u32(1) + bytes([10, 0, 0, 9]) + u32(0) + u32(1) + u32(1000) + u32(1) + sample
+
+    def columns(out):
+        f = out.split(' ')
+        if len(f) < 4 or f[0] != 'ok' or f[2] != 'm':
+            return None
+        cols = {}
+        for i in range(3, len(f) - 1, 2):
+            if f[i] == '|':
+                break
+            cols.setdefault(f[i], []).append(f[i + 1])
+        return cols
+    sfl, meta = [], []
+    for a, _ in base[:dict(quick=14, thorough=150)[chk.tier]]:
+        _, d = payload_of(a)
+        d = d[:400]
+        for n in range(len(d) + 1):
+            sfl.append('pipe sflow none =0a000009 #18c7 #1 =' + sflow_dgram(len(d), d[:n]).hex())
+            meta.append((d, n))
+    so = impl_run(chk.harness, sfl, timeout=120.0)
+    chk.evals += len(sfl)
+    chk.count('sFlow raw header records at every capture length, judged on the outputs', len(sfl))
+    full = {}
+    for (d, n), o in zip(meta, so):
+        if n == len(d):
+            full[d] = columns(o)
+    SKIP = ('#1e', '#1d', '#67', '#68')
+    for (d, n), a, o in zip(meta, sfl, so):
+        c, ref = columns(o), full.get(d)
+        if n > 14:
+            chk.nontrivial.add(hashlib.sha1(a.encode()).digest()[:8])
+        why = None
+        if c is None or ref is None:
+            why = 'a flow sample with a raw header record did not yield one message'
+        else:
+            for k, v in c.items():
+                if k in SKIP:
+                    continue
+                if ref.get(k) != v and ref.get(k, [])[:len(v)] != v:
+                    why = 'column %s of the cut capture is %s, of the complete capture %s' % (k, v, ref.get(k))
+                    break
+            if why is None and ref.get('#67', [])[:len(c.get('#67', []))] != c.get('#67', []):
+                why = 'the layer stack of the cut capture is not a prefix of the complete one'
+        if why:
+            chk.record('scopeA', dict(concrete=True, input=a, capture_length=n, frame=d.hex(), impl=o[:1500],
+                       what='sFlow raw header captured at %d of %d bytes: %s (every reported field must equal the frame\'s true value or be left unset)' % (n, len(d), why)), {})
     return chk.finish(me)
